@@ -20,7 +20,7 @@ Ev  == Tr[i]
 Adv == i' = i + 1
 
 TInit == /\ i = 1 /\ started = FALSE /\ TLCSet(1, 1)
-         /\ cfg = [cwd |-> "", tmp |-> "", env |-> "", aslr |-> "", perturb |-> "", inv |-> "", rep |-> 0]
+         /\ cfg = [cwd |-> "", tmp |-> "", env |-> "", aslr |-> "", perturb |-> "", inv |-> "", decoy |-> "", rep |-> 0]
          /\ artifact = ""
 
 TrReset == /\ Is("Reset") /\ Adv /\ started' = FALSE
